@@ -1,9 +1,31 @@
+/-
+  Props/C14IeeePos.lean — the numeric clauses of C14 ("positions are truncated to integers within ±131072 … spinner and
+  hold durations are never negative … an absent, zero or negative length means natural length") as theorems about the
+  driver's IEEE instances `F = Float` (f64), `P = Float32` (f32), for single lines and for every decoded map.
+
+  1. generic (every `Scalar`): `StoredKind` / `StoredObj` — what `parse_hit_objects` stores numerically: coordinates
+     `x as i32 as f32` of a parsed `f32` within the coordinate limit (`CoordP`), control points `Pos.zero` or
+     `(x as i32 as f32, y as i32 as f32) − head` of parsed `f64`s within the limit (`CtrlPos`; positions are written by
+     `read_point` and never modified: `convertPathStr_posAll`), spinner duration `max(end − start, 0)`, hold duration
+     `max(start, end) − start` with parsed times, slider length `ExpStored`. `parseHitObjectLine_push` (one line, any
+     state with an empty path scratch), `storedState_decoded` (the decoder state of every byte string),
+     `decoded_stored` (through sorting, break processing and the finaliser, `C15.finalize_perm`).
+  2. IEEE: `position_truncated_float32` (from `FTR.trunc_coord32`, Lemmas/FloatTrunc.lean): the stored coordinate is an
+     exact integer within ±131072, a fixed point of `as i32 as f32`, `|stored| ≤ |x| < |z| + 1`, sign kept;
+     `ctrlPos_int`: control-point offsets are exact integers within ±262144 (`FTR.sub_int_exact_float32`);
+     `hold_duration_nonneg_float` (`sub_nonneg_float`: `a − b ≥ +0` for finite `b ≤ a`), spinner durations by
+     `max_zero_ge_float` (Props/C14Ieee.lean); `expStored_pos_float`: a stored length is `≥ f64::EPSILON > 0`.
+  3. `line_numeric_ieee` (one accepted line), `decoded_state_numeric_ieee`, `decoded_numeric_ieee` and the corollaries
+     `decoded_position_integer_float32`, `decoded_control_points_integer_float32`, `decoded_duration_nonneg_float`,
+     `decoded_length_positive_float` (every byte string); non-vacuity on closed lines / files by `decide +kernel`.
+-/
 import RosuModel.Props.C14Ieee
 import RosuModel.Props.C14Split
 import RosuModel.Lemmas.FloatTrunc
 import RosuModel.Lemmas.DecodedSliders
 import RosuModel.Lemmas.FloatArithMono
 import RosuModel.Lemmas.FloatBitsLaws
+import RosuModel.Model.Cmds.Curve
 namespace Rosu.C14
 open Rosu Scalar RtObjects DecodedSliders
 set_option linter.unusedSectionVars false
@@ -645,5 +667,166 @@ theorem line_numeric_ieee (mode : GameMode) (st : HOCore Float Float32) (line : 
     ∃ o, (parseHitObjectLine mode st line).1.hitObjects = st.hitObjects ++ [o] ∧ InLimit o.startTime ∧ IeeeKind o.kind := by
   obtain ⟨o, h, ht, hk⟩ := accepted_stored mode st line hc hok
   exact ⟨o, h, ht, storedKind_ieee _ ht _ hk⟩
+
+/-! ### decoded maps -/
+
+/-- the objects the decoder holds before the finaliser runs (no `Trig` instance involved). -/
+theorem decoded_state_numeric_ieee (bs : List UInt8) (st : BeatmapState Float Float32)
+    (h1 : decodeBytes beatmapDecoder bs = .ok st) :
+    ∀ o ∈ st.hitObjects.core.hitObjects, InLimit o.startTime ∧ IeeeKind o.kind := by
+  intro o ho
+  obtain ⟨ht, hk⟩ := (storedState_decoded bs st h1).2 o ho
+  exact ⟨ht, storedKind_ieee _ ht _ hk⟩
+
+section Decoded
+variable [Trig Float32]
+
+/-- **every hit object of every decoded map satisfies the numeric clauses of C14** — every byte string: positions are
+integer-valued `f32`s within ±131072 (slider control points: integer offsets within ±262144, computed exactly), spinner
+and hold durations are `≥ 0` and not NaN, a stored slider length is `≥ f64::EPSILON`. -/
+theorem decoded_numeric_ieee (bs : List UInt8) (st : BeatmapState Float Float32) (m : Beatmap Float Float32)
+    (h1 : decodeBytes beatmapDecoder bs = .ok st) (h2 : st.finish = .ok m) :
+    ∀ o ∈ m.hitObjects, InLimit o.startTime ∧ IeeeKind o.kind := by
+  intro o ho
+  obtain ⟨ht, hk⟩ := decoded_stored bs st m h1 h2 o ho
+  exact ⟨ht, storedKind_ieee _ ht _ hk⟩
+
+/-- the position of an object (`HitObject::pos`: holds have an `x` only). -/
+def kindX : HitObjectKind Float Float32 → Float32
+  | .circle c => c.pos.x | .slider s => s.pos.x | .spinner s => s.pos.x | .hold h => h.posX
+
+def kindY : HitObjectKind Float Float32 → Option Float32
+  | .circle c => some c.pos.y | .slider s => some s.pos.y | .spinner s => some s.pos.y | .hold _ => none
+
+/-- **decoded_position_integer_float32**: `pos.x`, `pos.y` of every decoded hit object are of the form `z as f32` with
+`−131072 ≤ z ≤ 131072`. -/
+theorem decoded_position_integer_float32 (bs : List UInt8) (st : BeatmapState Float Float32) (m : Beatmap Float Float32)
+    (h1 : decodeBytes beatmapDecoder bs = .ok st) (h2 : st.finish = .ok m) :
+    ∀ o ∈ m.hitObjects, IntF32 131072 (kindX o.kind) ∧ ∀ y, kindY o.kind = some y → IntF32 131072 y := by
+  intro o ho
+  have h := (decoded_numeric_ieee bs st m h1 h2 o ho).2
+  cases hk : o.kind with
+  | circle c => rw [hk] at h; exact ⟨h.1, fun y hy => by cases hy; exact h.2⟩
+  | slider s => rw [hk] at h; exact ⟨h.1, fun y hy => by cases hy; exact h.2.1⟩
+  | spinner s =>
+    rw [hk] at h
+    obtain ⟨hp, _⟩ := h
+    refine ⟨⟨256, by decide, by decide, ?_⟩, fun y hy => ?_⟩
+    · show s.pos.x = _; rw [hp]
+    · cases hy; exact ⟨192, by decide, by decide, by rw [hp]⟩
+  | hold a => rw [hk] at h; exact ⟨h.1, fun y hy => by cases hy⟩
+
+/-- **decoded slider control points are integer offsets**, `|z| ≤ 262144`. -/
+theorem decoded_control_points_integer_float32 (bs : List UInt8) (st : BeatmapState Float Float32)
+    (m : Beatmap Float Float32) (h1 : decodeBytes beatmapDecoder bs = .ok st) (h2 : st.finish = .ok m) :
+    ∀ o ∈ m.hitObjects, ∀ s, o.kind = .slider s → ∀ cp ∈ s.path.controlPoints,
+      IntF32 262144 cp.pos.x ∧ IntF32 262144 cp.pos.y := by
+  intro o ho s hk
+  have h := (decoded_numeric_ieee bs st m h1 h2 o ho).2
+  rw [hk] at h
+  exact h.2.2.1
+
+/-- **decoded spinner and hold durations are never negative and never NaN.** -/
+theorem decoded_duration_nonneg_float (bs : List UInt8) (st : BeatmapState Float Float32) (m : Beatmap Float Float32)
+    (h1 : decodeBytes beatmapDecoder bs = .ok st) (h2 : st.finish = .ok m) :
+    ∀ o ∈ m.hitObjects,
+      (∀ s, o.kind = .spinner s → Scalar.le (0 : Float) s.duration = true ∧ Scalar.isNaN s.duration = false) ∧
+      (∀ a, o.kind = .hold a → Scalar.le (0 : Float) a.duration = true ∧ Scalar.isNaN a.duration = false) := by
+  intro o ho
+  have h := (decoded_numeric_ieee bs st m h1 h2 o ho).2
+  exact ⟨fun s hk => by rw [hk] at h; exact h.2, fun a hk => by rw [hk] at h; exact h.2⟩
+
+/-- **a decoded slider length is absent (natural length) or at least `f64::EPSILON`**: zero and negative length fields
+are never stored. -/
+theorem decoded_length_positive_float (bs : List UInt8) (st : BeatmapState Float Float32) (m : Beatmap Float Float32)
+    (h1 : decodeBytes beatmapDecoder bs = .ok st) (h2 : st.finish = .ok m) :
+    ∀ o ∈ m.hitObjects, ∀ s, o.kind = .slider s → ∀ L, s.path.expectedDist = some L →
+      Scalar.le (Scalar.eps : Float) L = true ∧ Scalar.lt (0 : Float) L = true ∧ Scalar.isNaN L = false := by
+  intro o ho s hk
+  have h := (decoded_numeric_ieee bs st m h1 h2 o ho).2
+  rw [hk] at h
+  exact h.2.2.2
+
+end Decoded
+
+
+/-! ### non-vacuity: closed lines and a closed file, decoded by the kernel -/
+
+section Examples
+
+/-- bit patterns of what a line pushes: per object its kind tag, position bits, control-point bits, duration / length bits. -/
+def obsKind : HitObjectKind Float Float32 → Nat × List UInt32 × List UInt64
+  | .circle c => (0, [c.pos.x.toBits, c.pos.y.toBits], [])
+  | .slider s => (1, [s.pos.x.toBits, s.pos.y.toBits] ++ s.path.controlPoints.flatMap (fun cp => [cp.pos.x.toBits, cp.pos.y.toBits]),
+      match s.path.expectedDist with | some L => [L.toBits] | none => [])
+  | .spinner s => (3, [s.pos.x.toBits, s.pos.y.toBits], [s.duration.toBits])
+  | .hold h => (7, [h.posX.toBits], [h.duration.toBits])
+
+def obsLine (line : String) : Bool × List (Nat × List UInt32 × List UInt64) :=
+  let r := parseHitObjectLine GameMode.osu ({} : HOCore Float Float32) (str line)
+  (r.2, r.1.hitObjects.map (fun o => obsKind o.kind))
+
+/-- the hypotheses of `line_numeric_ieee` hold of a slider line with fractional and negative coordinates and a negative
+length: accepted from the empty state; head `(256.7, −192.9) ↦ (256, −192)`; control points `(0,0)`, `(300.5, 10) ↦ (300 − 256, 10 + 192)
+= (44, 202)`, `(−20, 40.9) ↦ (−20 − 256, 40 + 192) = (−276, 232)`; the length `−5` is not stored. -/
+example : obsLine "256.7,-192.9,1000,2,0,B|300.5:10|-20:40.9,1,-5" =
+    (true, [(1, [0x43800000, 0xC3400000, 0, 0, 0x42300000, 0x434A0000, 0xC38A0000, 0x43680000], [])]) := by
+  decide +kernel
+
+/-- a spinner that ends before it starts has duration `+0.0`; a hold note whose end time precedes its start too; a
+slider with length `0.5` keeps it (`0x3FE0…`), one with length `1e-17 < ε` does not. -/
+example : obsLine "0,0,1000,8,0,500" = (true, [(3, [0x43800000, 0x43400000], [0])]) := by decide +kernel
+example : obsLine "100.9,0,1000,128,0,500:0:0:0:0:" = (true, [(7, [0x42C80000], [0])]) := by decide +kernel
+example : obsLine "0,0,0,2,0,L|10:0,1,0.5" = (true, [(1, [0, 0, 0, 0, 0x41200000, 0], [0x3FE0000000000000])]) := by
+  decide +kernel
+example : obsLine "0,0,0,2,0,L|10:0,1,1e-17" = (true, [(1, [0, 0, 0, 0, 0x41200000, 0], [])]) := by decide +kernel
+
+/-- a coordinate outside ±131072 rejects the line (nothing is clamped). -/
+example : obsLine "131072.5,0,0,1,0" = (false, []) := by decide +kernel
+example : obsLine "131072,-131072,0,1,0" = (true, [(0, [0x48000000, 0xC8000000], [])]) := by decide +kernel
+
+/-- a closed file with a slider, a spinner and a hold note: the hypothesis of `decoded_state_numeric_ieee` holds (it
+decodes), so the conclusions apply to its three objects. -/
+def fileC14 : List UInt8 :=
+  (str "osu file format v14\n\n[HitObjects]\n256.7,-192.9,1000,2,0,B|300.5:10|-20:40.9,1,-5\n0,0,2000,8,0,500\n100.9,0,3000,128,0,500:0:0:0:0:\n").map
+    (fun c => c.toNat.toUInt8)
+
+example : ∃ st : BeatmapState Float Float32, decodeBytes beatmapDecoder fileC14 = .ok st ∧
+    st.hitObjects.core.hitObjects.length = 3 ∧
+    ∀ o ∈ st.hitObjects.core.hitObjects, InLimit o.startTime ∧ IeeeKind o.kind := by
+  have hchk : (match decodeBytes (beatmapDecoder : LineDecoder (BeatmapState Float Float32)) fileC14 with
+      | .ok st => some st.hitObjects.core.hitObjects.length
+      | .error _ => none) = some 3 := by decide +kernel
+  cases h1 : decodeBytes (beatmapDecoder : LineDecoder (BeatmapState Float Float32)) fileC14 with
+  | error e => rw [h1] at hchk; cases hchk
+  | ok st =>
+    rw [h1] at hchk
+    simp only [Option.some.injEq] at hchk
+    exact ⟨st, rfl, hchk, decoded_state_numeric_ieee fileC14 st h1⟩
+
+/-- … and through the finaliser (`List.mergeSort` does not reduce in the kernel on two or more objects, so one object):
+the hypotheses of `decoded_numeric_ieee` and its corollaries hold of a closed file (`Trig Float32` of Model/Cmds/Curve.lean). -/
+def fileC14Slider : List UInt8 :=
+  (str "osu file format v14\n\n[HitObjects]\n256.7,-192.9,1000,2,0,B|300.5:10|-20:40.9,1,-5\n").map (fun c => c.toNat.toUInt8)
+
+example : ∃ (st : BeatmapState Float Float32) (m : Beatmap Float Float32),
+    decodeBytes beatmapDecoder fileC14Slider = .ok st ∧ st.finish = .ok m ∧ m.hitObjects.length = 1 ∧
+    ∀ o ∈ m.hitObjects, InLimit o.startTime ∧ IeeeKind o.kind := by
+  have hchk : ((match decodeBytes (beatmapDecoder : LineDecoder (BeatmapState Float Float32)) fileC14Slider with
+      | .ok st => some st | .error _ => none).bind (fun st => match st.finish with
+        | .ok m => some m.hitObjects.length | .error _ => none)) = some 1 := by decide +kernel
+  cases h1 : decodeBytes (beatmapDecoder : LineDecoder (BeatmapState Float Float32)) fileC14Slider with
+  | error e => rw [h1] at hchk; cases hchk
+  | ok st =>
+    rw [h1] at hchk
+    simp only [Option.bind_some] at hchk
+    cases h2 : st.finish with
+    | error e => rw [h2] at hchk; cases hchk
+    | ok m =>
+      rw [h2] at hchk
+      simp only [Option.some.injEq] at hchk
+      exact ⟨st, m, rfl, h2, hchk, decoded_numeric_ieee fileC14Slider st m h1 h2⟩
+
+end Examples
 
 end Rosu.C14
